@@ -294,6 +294,10 @@ is not case-folded (`Matcher.oneOf`: the meaning of a regexp leaf is the match o
 taken from a folded literal — stored in its upper-case spelling — would confine the walk to one case variant) -/
 theorem gen_regexp_literal_prefix : BlugeGen.C07.literalPrefixOnlyWithoutFoldCase = true := by decide
 
+/-- the unadorned conjunction rewrite (`Plan.rewriteNone`: the intersection of the children's lists; a 1-hit iterator
+is a singleton) gives a segment the EMPTY result when two 1-hit constituents stand for different documents -/
+theorem gen_conj_1hit_disagreement : BlugeGen.C07.conjUnadorned1HitDisagreementGuard = true := by decide
+
 /-- `postingsIterator.Advance`: the restart test is `currPosting != nil && currID >= number`
 (`PIter.advStart`), the restart does not close the iterator that stays in use, and
 `segmentIndexAndLocalDocNumFromGlobal` is `sort.Search(len(offsets), offsets[x] > docNum) - 1` (`segIndexOf`) -/
